@@ -176,13 +176,14 @@ func crashInventory(c *Ctx, r *Report, cfg crashCfg) crashStats {
 	st.Functions = len(fns)
 	pr := newProver(c)
 	usedExc := map[string]bool{}
+	inh := newG7Inherit(c, cfg) // ip_g7.go: the tables below also apply to helpers that only run as part of a listed function
 	for _, fn := range fns {
 		name := fnName(fn)
 		st.FuncList = append(st.FuncList, name)
-		if _, skip := cfg.skipFns[name]; skip {
+		if inh.skipped(fn) {
 			continue
 		}
-		assumedWhy, assumedFn := cfg.assumedFns[name]
+		assumedWhy, assumedFn := inh.assumed(fn)
 		root := fn
 		for root.Parent() != nil {
 			root = root.Parent()
@@ -341,7 +342,6 @@ func crashInventory(c *Ctx, r *Report, cfg crashCfg) crashStats {
 			}
 			st.Sites[kind]++
 			o := r.Add(cfg.rule, name, kind+" "+construct, c.pos(instr.Pos()))
-			excKey := name + "|" + kind + " " + construct
 			if assumedFn {
 				if ok, why := check(); ok {
 					o.OK("%s", why)
@@ -355,21 +355,20 @@ func crashInventory(c *Ctx, r *Report, cfg crashCfg) crashStats {
 				return
 			}
 			ok, why := check()
-			switch {
-			case ok:
+			if ok {
 				o.OK("%s", why)
 				if strings.HasPrefix(why, "compiler") {
 					o.Trivial = true
 				}
-			case cfg.exceptions[excKey] != "":
+			} else if excKey, excWhy := inh.exception(cfg.exceptions, fn, kind, construct, instr.Pos()); excWhy != "" {
 				usedExc[excKey] = true
-				o.Assume("excepted: %s", cfg.exceptions[excKey])
+				o.Assume("excepted: %s", excWhy)
 				st.Assumed++
-			case cfg.fatalIsOK[excKey] != "":
+			} else if excKey, excWhy := inh.exception(cfg.fatalIsOK, fn, kind, construct, instr.Pos()); excWhy != "" {
 				usedExc[excKey] = true
-				o.Assume("excepted: %s", cfg.fatalIsOK[excKey])
+				o.Assume("excepted: %s", excWhy)
 				st.Assumed++
-			default:
+			} else {
 				o.Bad("%s", why)
 			}
 		})
